@@ -34,6 +34,11 @@ HealthyOk(sid) ==
     /\ LET sd == SelectSeq(rs, LAMBDA r : r.api \in SendApis) IN Len(sd) = (IF role = "server" THEN 3 ELSE 2) /\ \A i \in DOMAIN sd : sd[i].k = "ok"
     /\ sid \in fins
 
+\* the peer is told with the code: a RESET_STREAM or a STOP_SENDING on that stream carries it, and none carries another error code
+Signalled(sid, c) == /\ (<<sid, c>> \in rsts \/ <<sid, c>> \in stops)
+                     /\ \A p \in rsts \cup stops : p[1] = sid => p[2] \in {c, 0}
+\* evaluated at quiescence (E is the quiesce event): stopped, or nothing of it left unread
+Relieved(sid) == (\E p \in stops : p[1] = sid) \/ ~(\E i \in DOMAIN E.unread : E.unread[i].sid = sid)
 FaultyOk(sid, kind, code) ==
     LET rs == Of(sid) errs == SelectSeq(rs, LAMBDA r : IsErr(r)) IN
     /\ \A i \in DOMAIN errs : errs[i].k # "conn_err"
@@ -46,16 +51,17 @@ FaultyOk(sid, kind, code) ==
          [] kind = "malformed" /\ role = "server" ->
               /\ Len(rs) = 1 /\ rs[1].k = "stream_err" /\ rs[1].code = H3_MESSAGE_ERROR
               \* the peer is told: the response side is reset with the code, it does not end as a clean (and empty) response
-              /\ <<sid, H3_MESSAGE_ERROR>> \in rsts /\ sid \notin fins
+              /\ Signalled(sid, H3_MESSAGE_ERROR) /\ sid \notin fins
          [] kind = "malformed" ->
               /\ Len(errs) = 1 /\ errs[1].api = "recv_response" /\ errs[1].k = "stream_err" /\ errs[1].code = H3_MESSAGE_ERROR
-              \* the refused response is not left to pile up while the application keeps the stream: the client stops it
-              /\ sid \in stops
+              \* the rest of the refused response does not stay charged to the connection while the application keeps the
+              \* failed stream: the client stops the stream (or reads the rest away)
+              /\ Relieved(sid)
          [] kind = "badtrailers" -> Len(errs) = 1 /\ errs[1].api = "recv_trailers" /\ errs[1].k = "stream_err" /\ errs[1].code = H3_MESSAGE_ERROR
          [] kind = "oversize" /\ role = "server" -> Len(rs) = 1 /\ rs[1].k = "too_big"
-         [] kind = "oversize" -> Len(errs) = 1 /\ errs[1].api = "recv_response" /\ errs[1].k = "too_big" /\ sid \in stops
+         [] kind = "oversize" -> Len(errs) = 1 /\ errs[1].api = "recv_response" /\ errs[1].k = "too_big" /\ Relieved(sid)
          [] kind = "finfirst" -> Len(rs) = 1 /\ rs[1].k = "stream_err" /\ rs[1].code = H3_REQUEST_INCOMPLETE
-                                /\ <<sid, H3_REQUEST_INCOMPLETE>> \in rsts /\ sid \notin fins
+                                /\ Signalled(sid, H3_REQUEST_INCOMPLETE) /\ sid \notin fins
          [] OTHER -> errs = <<>>
 
 Check == /\ closed = -1 /\ ~drvErr
@@ -72,7 +78,7 @@ ARet == /\ E.ev = "ret" /\ SidOfTask(E.task) # -1 /\ E.api \in (RecvApis \cup Se
         /\ UNCHANGED <<scn, role, meta, closed, drvErr, fins, stops, rsts, ok, why>>
 DRet == /\ E.ev = "ret" /\ E.api \in {"accept", "wait_idle"} /\ E.res.k = "conn_err" /\ drvErr' = TRUE /\ UNCHANGED <<scn, role, meta, rets, closed, fins, stops, rsts, ok, why>>
 Fin == E.ev = "h3_fin" /\ fins' = fins \cup {E.sid} /\ UNCHANGED <<scn, role, meta, rets, closed, drvErr, stops, rsts, ok, why>>
-Stop == E.ev = "h3_stop" /\ stops' = stops \cup {E.sid} /\ UNCHANGED <<scn, role, meta, rets, closed, drvErr, fins, rsts, ok, why>>
+Stop == E.ev = "h3_stop" /\ stops' = stops \cup {<<E.sid, E.code>>} /\ UNCHANGED <<scn, role, meta, rets, closed, drvErr, fins, rsts, ok, why>>
 Rst == E.ev = "h3_reset" /\ rsts' = rsts \cup {<<E.sid, E.code>>} /\ UNCHANGED <<scn, role, meta, rets, closed, drvErr, fins, stops, ok, why>>
 Close == E.ev = "h3_close" /\ closed' = (IF closed = -1 THEN E.code ELSE closed) /\ UNCHANGED <<scn, role, meta, rets, drvErr, fins, stops, rsts, ok, why>>
 Bad == /\ E.ev \in {"panic", "late", "livelock", "harness_panic"}
